@@ -177,6 +177,48 @@ for _f in FAMILIES_ALL:
     _mk_pipeline(_f)
 
 
+HOSTILE_MESSAGES = [u'plain', u'a <word> in brackets', u'<b>bold</b> tail', u'a &amp; b', u'a & b < c > d', u'  blanks around  ',
+                    u'two\nlines\tand a tab', u'unicode \u00e9 \U0001f600', u'<![CDATA[x]]>', u'&lt;escaped&gt;', u'"double" \'single\'',
+                    u'<!-- comment -->', u'{curly} %s %(x)s', u'x' * 3000]
+CODES = ['Client', 'Server', 'Client.Sub', 'Server.A.B.C', 'Client.with space', u'Client.\u00e9']
+
+
+def _mk_messages(family):
+    @obligation('C09.messages.%s' % family, targets=['spyne.protocol.xml:XmlDocument.fault_to_parent',
+                                                      'spyne.protocol.soap.soap12:Soap12.fault_to_parent',
+                                                      'spyne.protocol.soap.soap12:Soap12.gen_fault_codes',
+                                                      'spyne.model.fault:Fault.to_dict'],
+                bounded="14 message texts (markup, entities, CDATA, comments, blanks, control characters, non-BMP, format "
+                        "directives, 3000 characters) x 6 fault codes (bare, one and several sub-codes, blank, non-ASCII)",
+                desc="a Fault raised by user code reaches the client with exactly the same code and the same message text, "
+                     "whatever characters they contain")
+    def ob(c):
+        msg = c.choose(HOSTILE_MESSAGES, 'message')
+        code = c.choose(CODES, 'code')
+        h = Harness(c, family, user_outcomes=['client_fault'])
+        h.fault_spec = (code, msg)
+        out = h.run_wsgi('valid')
+        c.check('callable_returns', out.returned, detail=repr(out))
+        if not out.returned:
+            return
+        body = b''.join(t[1] for t in c.trace if t[0] == 'chunk' and isinstance(t[1], bytes))
+        try:
+            doc = faultdoc.decode_fault(family, body)
+        except Exception as e:
+            c.check('response_decodes', False, detail=(repr(e), body[:300]))
+            return
+        c.check('fault_document', doc is not None, detail=body[:300])
+        if doc is None:
+            return
+        c.check('code_intact', doc['faultcode'] == code, detail=(doc['faultcode'], code, body[:400]))
+        c.check('string_intact', doc['faultstring'] == msg, detail=(doc['faultstring'][:200], msg[:200]))
+    return ob
+
+
+for _f in FAMILIES_ALL:
+    _mk_messages(_f)
+
+
 def _mk_serialise(name):
     @obligation('C09.serialise.%s' % name, targets=['spyne.model.fault:Fault.' + name],
                 desc="the dict/list/bytes form of a fault carries faultcode, faultstring and detail verbatim, for arbitrary "
